@@ -501,3 +501,46 @@ Proof.
       rewrite Hq in H1. destruct H1 as [H1|H1]; [|right; exists y; now rewrite Hq']. subst y. exfalso. fold inp in H2. rewrite <- H2 in Hkd.
       destruct HA as [([Hc _] & _)|(_ & _ & ti & Hg & _)]; [congruence|]. pose proof (Htip inp ti Hg) as Hp. unfold is_in_progress in Hp. rewrite Hkd in Hp. discriminate.
 Qed.
+
+(* a dummy request (the request of the build, here) is dropped once its input is in progress or complete *)
+Lemma BInv_drop_dummy root su s' rq rest : BInv root None su -> sreq_scanning su -> is_inreq su = rq :: rest -> is_inreq s' = rest -> iq_task rq = None ->
+  (is_in_progress su (iq_input rq) = true \/ curk su (iq_input rq)) ->
+  (forall k, rinfo_of s' k = rinfo_of su k) -> is_tasks s' = is_tasks su -> is_toscan s' = is_toscan su -> is_fininreq s' = is_fininreq su ->
+  is_fintasks s' = is_fintasks su -> is_usedb s' = is_usedb su -> is_epoch s' = is_epoch su -> BInv root None s'.
+Proof.
+  intros (HT & HC & HS) Hss Hq Hq' Et Hinp RI Htk Hts Hf Hft Hu He.
+  assert (HR : forall k, res_of s' k = res_of su k) by (intros; unfold res_of; now rewrite RI).
+  assert (HK : forall k, kind_of s' k = kind_of su k) by (intros; unfold kind_of; now rewrite RI).
+  assert (Hst : forall k, stored s' k = stored su k) by (intros k; unfold stored; now rewrite HR).
+  assert (Hca : forall k, cAt s' k = cAt su k) by (intros k; unfold cAt; now rewrite HR).
+  assert (Hba : forall k, bAt s' k = bAt su k) by (intros k; unfold bAt; now rewrite HR).
+  assert (Hdp : forall k, deps s' k = deps su k) by (intros k; unfold deps; now rewrite HR).
+  assert (Hcu : forall k, curk s' k <-> curk su k) by (intros k; apply curk_same; auto).
+  assert (Htask : forall t, task_of s' t = task_of su t) by (intros; unfold task_of; now rewrite Htk).
+  split; [|split].
+  - apply (BT_rules_change rules env F rank root su s' HT); auto.
+    + intros k. now rewrite HR.
+    + intros k H. now apply Hcu.
+    + intros k H. left. now apply Hcu.
+    + intros y [H|(k & H)]; [left; rewrite Hq; right; now rewrite <- Hq'|right; exists k; now rewrite <- RI].
+    + intros y [H|(k & H)] Hnd; [rewrite Hq in H; destruct H as [H|H]; [subst y; contradiction|left; now rewrite Hq']|right; exists k; now rewrite RI].
+    + destruct (b_root _ _ _ _ _ _ HT) as [H|[(k & H)|[H|H]]].
+      * rewrite Hq in H. destruct H as [H|H]; [|left; now rewrite Hq']. rewrite H in Hinp. cbn [dummy_root iq_input] in Hinp.
+        destruct Hinp as [Hp|Hp]; [right; right; left; now rewrite (in_progress_of_kind su s' root (HK root))|right; right; right; now apply Hcu].
+      * right. left. exists k. now rewrite RI.
+      * right. right. left. now rewrite (in_progress_of_kind su s' root (HK root)).
+      * right. right. right. now apply Hcu.
+  - apply (BC_kinds rules F su s' HC); auto.
+    + intros k. now rewrite HR.
+    + intros k. rewrite RI. apply (b_nc _ _ _ HC).
+    + intros k. unfold idle. now rewrite HK.
+    + intros k H. now apply Hcu.
+    + intros k. left. split; auto. intros H. now apply Hcu.
+  - apply (BS_kinds rules env F rank None None su s' HS); auto.
+    + intros k H. now apply Hcu.
+    + intros y [H|[(k & H)|(t0 & z & Hz & H)]]; left; [left; congruence|right; left; exists k; now rewrite <- RI|right; right; exists t0, z; now rewrite <- Htask].
+    + intros k. rewrite HK. intros Hk. left. split; auto. now rewrite RI.
+    + intros k. rewrite HK. intros Hk. left. split; auto. split; auto.
+      intros [(y & H1 & H2)|(y & H1 & H2)]; [left; exists y; now rewrite Hts|]. rewrite Hq in H1. destruct H1 as [H1|H1]; [|right; exists y; now rewrite Hq'].
+      exfalso. subst y. rewrite H2 in Hinp. destruct Hinp as [Hp|[Hp _]]; [unfold is_in_progress in Hp; rewrite Hk in Hp; discriminate|congruence].
+Qed.
